@@ -27,7 +27,7 @@ RULE = (
     "distinct canonical states; every transition is executed on the implementation and on the reference model"
 )
 ASSUMPTIONS = [
-    "each inserted object is fresh (never inserted at two places); operations addressing members *through* an alias are outside the alphabet",
+    "main family: each inserted object is fresh; family M re-inserts detached objects (never an object that is still attached somewhere); operations addressing members *through* an alias or an inherited view are outside both alphabets",
     "states in which an alias-valued target was created other than by lazy resolution (an object that aliases point at is replaced by an Alias; "
     "alias.target = <another alias>) are checked but not expanded further: the `aliases` table of an alias is a proxy for its final target and the "
     "property's back-reference clause is not well defined beyond that point",
@@ -36,7 +36,7 @@ ASSUMPTIONS = [
 ]
 MANIFEST = {
     "category": "model_checking",
-    "text": "Explicit-state breadth-first model checking of the member/alias mutation API on the real objects: all operation histories up to the depth bound (quick 4, thorough 7, or to the fixpoint of reachable canonical states when it is reached earlier) over a universe of 2 modules, a class, functions, an attribute and 7 aliases (chain, dangling, self, 2-cycle), with a dict reference model stepped in lock-step and invariants I1-I7 checked in every state.",
+    "text": "Explicit-state breadth-first model checking of the member/alias mutation API on the real objects: all operation histories up to the depth bound (quick 4, thorough 7, or to the fixpoint of reachable canonical states when it is reached earlier) over a universe of 2 modules, a class, functions, an attribute and 7 aliases (chain, dangling, self, 2-cycle), with a dict reference model stepped in lock-step and invariants I1-I8 checked in every state; a second search (family M, c16m.py) over histories that MOVE a fixed cast of objects (detach, re-attach elsewhere or at the top level, bottom-up building, implicit stubs merges, an alias over a module) with invariants M1-M5.",
     "note": "Bounded by the universe and depth stated in the evidence; objects are always fresh; the reference model and canonical form are hand-written (their soundness argument is in DESIGN.md C16).",
     "technique": "explicit-state BFS model checking over API operation histories on the real implementation with a lock-step reference model",
 }
@@ -826,19 +826,37 @@ def expand(hist, tier):
 
 
 def bounds(tier):
+    from mc.checks import c16m
+
     return {"operations": len(ops_for(tier)), "roots": [describe(r, tier) for r in _root_histories(tier)],
-            "max_depth": DEPTH[tier], "universe_paths": ALL_PATHS}
+            "max_depth": DEPTH[tier], "universe_paths": ALL_PATHS,
+            "moves_family": {"operations": len(c16m.OPS), "roots": [c16m.describe(r, tier) for r in c16m._root_histories(tier)], "max_depth": c16m.DEPTH[tier],
+                             "cast": sorted(c16m.NAMES)}}
 
 
 DEPTH = {"quick": 4, "thorough": 7}
 
 
 def run_all(tier, jobs):
-    return bfs.search("mc.checks.c16", tier, _root_histories(tier), DEPTH[tier], jobs, time_cap={"quick": 45, "thorough": 1500}[tier])
+    from mc.checks import c16m
+    from mc.core.driver import merge
+
+    main = bfs.search("mc.checks.c16", tier, _root_histories(tier), DEPTH[tier], jobs, time_cap={"quick": 45, "thorough": 1500}[tier])
+    moves = bfs.search("mc.checks.c16m", tier, c16m._root_histories(tier), c16m.DEPTH[tier], jobs, time_cap={"quick": 30, "thorough": 900}[tier])
+    for r, name in ((main, "fresh-objects"), (moves, "moves")):
+        r["counters"] = {f"{name}/{k}": v for k, v in r["counters"].items()}
+        r["counters"][f"{name}/states"] = r["states"]
+        r["counters"][f"{name}/transitions"] = r["transitions"]
+        r["notes"] = [f"[{name}] {n}" for n in r["notes"]]
+    return merge([main, moves])
 
 
 def replay(case):
     boot.boot()
+    if case["history"] and case["history"][0].startswith("M: "):
+        from mc.checks import c16m
+
+        return c16m.replay_case(case)
     # a recorded history is a list of op descriptions (robust against alphabet re-indexing)
     tier = "thorough"
     ops = ops_for(tier)
